@@ -32,7 +32,10 @@ Judge(o) ==
        [] OTHER -> \* unspecified syntax: may be rejected; if accepted nothing is extended or collapsed
             (IF o.n = 1 /\ cv.kind \in {"grpc", "connect"} /\ bv.kind \in {"grpc", "connect", "rest"} /\ Valid(bv) /\ ~Conveyed(cv, bv)
                   THEN {"C12.UnspecifiedNotCollapsed"} ELSE {})
-            \cup (IF o.n = 1 /\ bv.kind = "malformed" THEN {"C12.BackendHeaderWellFormed"} ELSE {}))
+            \cup (IF o.n = 1 /\ bv.kind = "malformed" THEN {"C12.BackendHeaderWellFormed"} ELSE {})
+            \* the gRPC grammar is explicit (at most 8 digits): a longer Grpc-Timeout is malformed whatever its unit,
+            \* also when the value would be "practically unbounded" (hours)
+            \cup (IF cv.kind = "grpc" /\ (o.n # 0 \/ o.status \notin 400..499) THEN {"C12.MalformedRejectedBeforeDispatch"} ELSE {}))
 
 Init == i = 1 /\ nbad = 0
 
